@@ -3,7 +3,7 @@ import vlib
 CFG = dict(
     imports=["From Verif.C26 Require Import Model Spec."],
     checker="check_case",
-    n=dict(quick=150, thorough=6000),
+    n=dict(quick=150, thorough=1800),
     shard=50,
     rule="scripts of 8-35 (every tenth case 40-100) datastore outcomes for 1-3 resource types of the REAL watcherSyncer "
          "(each with/without SendDeletesOnConnFail and with/without an UpdateProcessor): successful lists (consistent "
